@@ -118,7 +118,15 @@ def run(ctx, report):
                 segs = docgen.envelope_doc(rng, d, icvn=icvn, n_isa=rng.choice([1, 1, 2, 3]), max_groups=2, max_sets=2, max_body=5,
                                            faults=0.3 if kind == 'faulty' else 0.0, hl=True, lx=False)
             if kind == 'layout':
-                segs = [(' ' + s if rng.random() < 0.2 and i > 0 else s) + (d[1] if rng.random() < 0.2 and i > 0 else '')
+                # leading blanks, trailing separators — and values whose LAST element ends in blanks (fixed-width files), also on
+                # lines that start with a blank: the value is data and must come back unchanged
+                def pad_last(sg_, i_):
+                    parts_ = sg_.split(d[1])
+                    if i_ > 0 and len(parts_) > 1 and parts_[0] not in docgen.ENVELOPE and parts_[-1] != '' and ' ' not in d and rng.random() < 0.3:
+                        parts_[-1] = parts_[-1] + rng.choice([' ', '  '])
+                    return d[1].join(parts_)
+                segs = [pad_last(s, i) for i, s in enumerate(segs)]
+                segs = [(' ' + s if rng.random() < 0.3 and i > 0 else s) + (d[1] if rng.random() < 0.2 and i > 0 and not s.endswith(' ') else '')
                         for i, s in enumerate(segs)]
                 segs = [x for s in segs for x in ([s, ''] if rng.random() < 0.1 else [s])]
             conv = rng.choice(['', '\n', '\r\n']) if d[0] not in '\r\n' else ''
@@ -182,6 +190,16 @@ def run(ctx, report):
                     if not fix:
                         if [canon(x) for x in s_in] != [canon(x) for x in s_out]:
                             report.fail('C20:content-changed', 'segments/values changed by normalisation', inp)
+                        # the same against a normalisation computed directly on the input text (no library code involved)
+                        import C01
+                        want_text = C01.normalise(text)
+                        got_text = out_stdout.replace('\n', '')      # line layout is judged separately (eol-layout)
+                        if want_text is not None and d[0] not in '\r\n':
+                            report.count('independent-normalisation')
+                            if got_text != want_text:
+                                k_ = next((j for j in range(min(len(got_text), len(want_text))) if got_text[j] != want_text[j]), min(len(got_text), len(want_text)))
+                                report.fail('C20:content-changed:independent', 'output differs from the normalisation computed on the text at offset %d: %r vs %r' % (
+                                    k_, got_text[max(0, k_ - 25):k_ + 15], want_text[max(0, k_ - 25):k_ + 15]), inp)
                     else:
                         # only count fields may change
                         ok = len(s_in) == len(s_out)
